@@ -43,8 +43,8 @@ func refOf(i int, rpc *RPC) Ref {
 	sentHdr, sendFailed := false, false
 	for _, op := range ops {
 		switch {
-		case len(op) > 1 && op[0] == 's' && op[1] >= '0' && op[1] <= '9':
-			seq, _ := strconv.Atoi(op[1:])
+		case len(op) > 1 && op[0] == 's' && (op[1] >= '0' && op[1] <= '9' || op[1] == '!'):
+			seq, _ := strconv.Atoi(strings.TrimPrefix(op[1:], "!"))
 			r.Msgs = append(r.Msgs, tag(i, "s", seq))
 			sentHdr = true
 		case strings.HasPrefix(op, "h:") || strings.HasPrefix(op, "H:"):
